@@ -11,6 +11,6 @@ VERIF_REPO=$T/repo VERIF_BUILD=$T/build VERIF_EVIDENCE_DIR=$T/ev VERIF_NEW_REPLA
 rc=$?
 grep -E "VIOLATION|KNOWN-FINDING|HARNESS-ERROR|^C[0-9]+ " $T/out.txt | cut -c1-300 | head -8
 if [ -n "${KEEP_REPLAYS:-}" ] && [ -d $T/new ]; then mkdir -p $KEEP_REPLAYS; cp $T/new/* $KEEP_REPLAYS/ 2>/dev/null; fi
-echo "mutant $(basename $PATCH) on $ID $TIER: exit $rc $([ $rc = 1 ] && echo KILLED || echo SURVIVED)"
+echo "mutant $(basename $PATCH) on $ID $TIER: exit $rc $([ $rc = 1 ] && echo KILLED || { [ $rc = 2 ] && echo HARNESS-ERROR || echo SURVIVED; })"
 rm -rf $T
 exit $rc
